@@ -204,6 +204,52 @@ def judge(ctx, kt, onchain, literal, ops, mode, big_id=None):
         ctx.samples.append({'case': case, 'lazy_diff': lazy_diff, 'node_lookups': len(lookups)})
 
 
+def judge_value_types(ctx, rng):
+    """The layered dictionary holds whatever value it was given - also "", 0x, False and empty collections, which are values
+    like any other: a key bound to one of them is bound, and the diff says so."""
+    from pytezos.michelson.repl import Interpreter
+    kinds = [(T.STRING, ['', 'a']), (T.BYTES, [b'', b'\x00']), (T.BOOL, [False, True]), (T.list_(T.NAT), [[], [1]]), (T.map_(T.NAT, T.NAT), [[], [(1, 1)]]),
+             (T.set_(T.NAT), [[], [2]]), (T.NAT, [0, 5]), (T.option(T.NAT), [None, ('Some', 0)]), (T.pair(T.STRING, T.BOOL), [('', False), ('x', True)])]
+    for vt, vals in kinds:
+        for literal in ([], [(1, vals[1])], [(1, vals[0]), (2, vals[1])]):
+            for ops in ([(3, vals[0])], [(1, vals[0])], [(2, None), (3, vals[0]), (4, vals[1])], [(1, None), (1, vals[0])], [(5, vals[1]), (5, vals[0])]):
+                code = [{'prim': 'CDR'}]
+                model = dict(literal)
+                for k, v in ops:
+                    code += [{'prim': 'PUSH', 'args': [T.to_micheline(T.option(vt)), P.render(None if v is None else ('Some', v), T.option(vt), 'readable')]},
+                             {'prim': 'PUSH', 'args': [{'prim': 'nat'}, {'int': str(k)}]}, {'prim': 'UPDATE'}]
+                    if v is None:
+                        model.pop(k, None)
+                    else:
+                        model[k] = v
+                code += [{'prim': 'NIL', 'args': [{'prim': 'operation'}]}, {'prim': 'PAIR'}]
+                script = [{'prim': 'parameter', 'args': [{'prim': 'unit'}]}, {'prim': 'storage', 'args': [T.to_micheline(T.big_map(T.NAT, vt))]}, {'prim': 'code', 'args': [code]}]
+                case = {'value_type': T.to_micheline(vt), 'literal': P.render(literal, T.map_(T.NAT, vt), 'readable'), 'script_code': code}
+                ctx.count('value_type_histories')
+                ctx.case(('vt', T.show(vt), repr(literal), repr(ops)), nontrivial=True)
+                try:
+                    _ops, storage, lazy, _out, err = Interpreter.run_code(parameter={'prim': 'Unit'}, storage=P.render(literal, T.map_(T.NAT, vt), 'readable'), script=script)
+                except Exception as e:
+                    ctx.violation('C15|run_code-raises|value-type|' + vt[0], repr(e)[:200], case)
+                    continue
+                if err is not None:
+                    ctx.violation('C15|run_code-fails|value-type|' + vt[0], L_errtext(err), case)
+                    continue
+                applied = {}
+                for d in lazy:
+                    for u in (d.get('diff') or {}).get('updates', []):
+                        k = int(u['key']['int'])
+                        if u.get('value') is None:
+                            applied.pop(k, None)
+                        else:
+                            applied[k] = P.parse(u['value'], vt)
+                ctx.count('diffs_checked')
+                if applied != model:
+                    falsy = [k for k, v in model.items() if k not in applied and not v]
+                    ctx.violation('C15|diff-applied-differs|%s|value-type-%s' % ('binding-to-an-empty-value-dropped' if falsy else 'other', vt[0]),
+                                  'diff gives %r, the dictionary holds %r' % (applied, model), case)
+
+
 def judge_onchain_hashes(ctx):
     """Ground truth from mainnet: the lazy storage diffs recorded with the repository's contract tests carry (key, key_hash)
     as the chain computed them. The same key inserted through the interpreter must be reported under the same hash."""
@@ -300,6 +346,8 @@ def run(ctx):
         mode = rng.choice(['onchain', 'onchain', 'literal'])
         judge(ctx, kt, content if mode == 'onchain' else [], content if mode == 'literal' else [], ops, mode)
     judge_onchain_hashes(ctx)
+    if ctx.mine(1):
+        judge_value_types(ctx, rng)
     # real contracts: the lazy diff of every finished recorded call vs the reference interpreter's big maps (only the
     # lazy-diff verdicts are taken here; the lock-step verdicts of the same runs belong to C01)
     from rv.checks import _real as RC
@@ -314,6 +362,8 @@ def run(ctx):
 
 
 def replay(ctx, case):
+    if 'value_type' in case:
+        return judge_value_types(ctx, ctx.rng)
     if 'onchain_key_type' in case:
         return judge_onchain_hashes(ctx)
     if case.get('label') == 'real-contract':
